@@ -6,7 +6,7 @@ LEVEL = "proof"
 RULE = ("correspondence: worlds with slabs/faults (and area features with value-at-points depth surfaces), each built twice — shortcuts on, and off through the GWB_VERIF hook "
         "(model flag cull=false) — model vs library bit for bit. oracle (library only): the same world with the hook on and off must answer bit-identically at points biased "
         "to the culling boundaries: along the dip direction out to length+thickness, below the slab tip, around min depth + length, near the bounding-box edges, for curved trenches, "
-        "min depth > 0, top truncation, both coordinate systems incl. trenches at 60-85 degrees latitude, N-S and E-W, and trenches crossing the +-180 meridian. "
+        "min depth > 0, top truncation, both coordinate systems incl. trenches at 60-85 degrees latitude, N-S and E-W, and trenches crossing the +-180 meridian; the kd-guided triangle lookup of depth surfaces against affine nodal data (dense probes, surfaces written across the date line / 360 degrees away). "
         "non-trivial = a point inside the slab/fault with the shortcuts off.")
 TRUSTED_BASE = ["the premise of C07_cull_equiv (a culled point is never a member) is not proved for arbitrary geometry; it is searched by the hook-on/hook-off oracle"]
 ASSUMPTIONS = ["the hook replaces the bounding box by the default infinite box and the total length by +infinity; nothing else"]
@@ -149,7 +149,16 @@ def oracle(seed, tier):
             viol.append({"what": "shortcuts on: %s ; shortcuts off: %s" % (a[:120], b[:120]), "world": path, "world_json": w, "cmd": lines[i]})
         elif len(samples) < 3 and pb[0] == "ok" and pb[1][0] != -1.0:
             samples.append({"world": worlds[m[1]][0], "cmd": lines[i], "answer": a[:120]})
-    return {"violations": trim_violations(viol, 20), "summary": {"cases": cases, "violations": len(viol), "nontrivial": nontriv}, "samples": samples}
+    # ---- the nearest-triangle search of depth surfaces must be a pure optimisation: affine nodal data make the brute-force answer known (the affine value whatever
+    #      triangle contains the point); dense probes on surfaces with many nodes written across the date line / 360 degrees away also reach the full-scan fallback
+    import prop_C11
+    sviol = []
+    c_, n_ = prop_C11.far_longitude_surfaces(random.Random(seed * 131 + 77), tier, proto.workdir("C07_surfaces"), sviol)
+    for v in sviol:
+        v["what"] = "triangle lookup of a depth surface: " + v["what"]
+    viol += sviol
+    cases += c_; nontriv += n_
+    return {"violations": trim_violations(viol, 20), "summary": {"cases": cases, "violations": len(viol), "nontrivial": nontriv, "surface_lookup_probes": c_}, "samples": samples}
 
 
 def replay(rp):
